@@ -6,10 +6,11 @@ cd "$(dirname "$(readlink -f "$0")")"
 javac -cp /opt/veriftools/tla/tla2tools.jar -d spec spec/HPReal.java spec/VerifIO.java
 mkdir -p work evidence replays
 python3-vt harness/gen_hpcases.py work/hpcases.json >/dev/null
-HP_CASES=$PWD/work/hpcases.json java -Xmx1g -XX:+UseSerialGC -DTLA-Library=$PWD/spec \
+mkdir -p work/jtmp-setup
+HP_CASES=$PWD/work/hpcases.json java -Xmx1g -XX:+UseSerialGC -Djava.io.tmpdir=$PWD/work/jtmp-setup -DTLA-Library=$PWD/spec \
   -cp /opt/veriftools/tla/tla2tools.jar:/opt/veriftools/tla/CommunityModules-deps.jar tlc2.TLC \
   -metadir work/meta-setup -noGenerateSpecTE -nowarning -config spec/HPRealTest.cfg spec/HPRealTest.tla > work/setup.log 2>&1 \
   || { cat work/setup.log; echo "HPReal self-test FAILED"; exit 2; }
 grep -q "No error has been found" work/setup.log || { cat work/setup.log; echo "HPReal self-test FAILED"; exit 2; }
-rm -rf work/meta-setup
+rm -rf work/meta-setup work/jtmp-setup
 echo "setup ok: overrides compiled, HPReal self-test passed"
